@@ -18,7 +18,11 @@ impl output line:  <oracle> # <per chunking, ' | ' separated>
     S mode: <R8> <A8>      V mode: I{<R text>}{<A text>}
     R text (public observables): per call with a non-empty return value  i:item+item;   item =
         type,seq,payload_size,crc,raw-hex|-,offset|-,pv   (pv = digest of the decoded payload field values) followed by markers
-          !CB  callbacks (registered for None and for the message's own type) did not receive exactly the returned entries
+          !CB  a callback (catch-all or type specific, registered before the first call or between calls) did not receive exactly
+               the entries returned after its registration
+          !AL  an entry returned by an earlier call no longer says what it said when it was returned (header, raw bytes, offset,
+               payload field values re-read after later calls)
+          !ID  an entry shares a mutable object with an earlier entry, or with the decoder's own buffer
           !SH  the returned entry does not have the documented shape
         a call that raised ends the text with  !EXC:<ExceptionType>
     A text (private attributes, advisory): per call  processed,len(buffer),header-is-None,msg_len,last_seq|-;   ('?' = attribute missing)
@@ -129,76 +133,165 @@ def attr(o, name):
     return getattr(o, name, '?')
 
 
+def mutable_ids(x, out, depth=0):
+    """ids of the mutable objects reachable from a returned value (objects with attributes, lists, dicts, sets, bytearrays,
+    numpy arrays and the objects they are views of); enum members, classes and immutable scalars are not counted"""
+    import enum
+    if depth > 12 or x is None or isinstance(x, (bool, int, float, str, bytes, enum.Enum, type)):
+        return
+    if isinstance(x, np.ndarray):
+        out[id(x)] = x
+        if x.base is not None:
+            mutable_ids(x.base, out, depth + 1)
+        return
+    if isinstance(x, memoryview):
+        out[id(x)] = x
+        mutable_ids(x.obj, out, depth + 1)
+        return
+    if isinstance(x, bytearray):
+        out[id(x)] = x
+        return
+    if isinstance(x, np.generic):
+        return
+    if isinstance(x, dict):
+        out[id(x)] = x
+        for v in x.values():
+            mutable_ids(v, out, depth + 1)
+        return
+    if isinstance(x, (list, set)):
+        out[id(x)] = x
+        for v in x:
+            mutable_ids(v, out, depth + 1)
+        return
+    if isinstance(x, (tuple, frozenset)):
+        for v in x:
+            mutable_ids(v, out, depth + 1)
+        return
+    if hasattr(x, '__dict__'):
+        out[id(x)] = x
+        for v in vars(x).values():
+            mutable_ids(v, out, depth + 1)
+
+
+def snapshot(r, rb, ro, full):
+    """what an entry of the return value says: header fields, raw bytes, offset and (full) the payload field values"""
+    h, contents = r[0], r[1]
+    cheap = (int(h.message_type), h.sequence_number, h.payload_size_bytes, h.crc, h.message_version, h.source_identifier,
+             bytes(r[2]) if rb else None, r[-1] if ro else None)
+    if not full:
+        return cheap, None
+    return cheap, digest(canon(contents if not isinstance(contents, (bytes, bytearray)) else bytes(contents)))[:8]
+
+
 def run_chunking(stream, sizes, maxp, rb, ro, opts='likely,0,0'):
     woe, gap, unrec = opts.split(',')
     dec = FusionEngineDecoder(max_payload_len_bytes=maxp, return_bytes=rb, return_offset=ro, warn_on_error=woe,
                               warn_on_gap=gap == '1', warn_on_unrecognized=unrec == '1')
-    got_all, got_typed = [], []
-    dec.add_callback(None, lambda *a: got_all.append(a))
-    typed = {}
+    # ---- callbacks: registered before the first call AND between calls (catch-all and type specific, several of each);
+    # every callback must receive exactly the entries returned by the calls made after its registration (same objects,
+    # same order, its type only)
+    cbs = []                                   # [type or None, received list, number already checked]
 
-    def reg(t):
-        if t not in typed:
-            typed[t] = []
-            dec.add_callback(t, lambda *a, _l=typed[t]: _l.append(a))
-    # typed callbacks for every type whose sync+header could appear: register lazily is impossible (the decoder calls
-    # them during on_data), so register for the types of all sync candidates up front
+    ninv = [0]                                 # total number of callback invocations
+
+    def register(t):
+        rec = [t, [], 0]
+
+        def cb(*a, _l=rec[1]):
+            _l.append(a); ninv[0] += 1
+        dec.add_callback(t, cb)
+        cbs.append(rec)
+    cand_types = []
     p = stream.find(b'.1')
-    while p >= 0 and len(typed) < 40:
+    while p >= 0 and len(cand_types) < 24:
         if p + 24 <= len(stream):
             t = struct.unpack_from('<H', stream, p + 10)[0]
             try:
-                reg(MessageType(t, raise_on_unrecognized=False))
+                mt = MessageType(t, raise_on_unrecognized=False)
+                if mt not in cand_types:
+                    cand_types.append(mt)
             except Exception:
                 pass
         p = stream.find(b'.1', p + 1)
+    variant = (len(stream) + len(sizes)) % 3   # 0: everything up front; 1: catch-all up front, typed late; 2: typed up front, catch-all late
+    if variant in (0, 1):
+        register(None)
+    if variant in (0, 2):
+        for t in cand_types:
+            register(t)
+    late_points = {0, len(sizes) // 2, len(sizes) - 2}     # after these calls more callbacks are registered
+    ninv_seen_box = [0]
+    kept = []                                   # [entry, cheap snapshot, payload digest, call index] of everything returned so far
+    seen_ids = {}
     R, A = [], []
     pos = 0
     for i, k in enumerate(sizes):
         chunk = bytes(stream[pos:pos + k]); pos += k
-        n_all = len(got_all)
-        n_typed = {t: len(l) for t, l in typed.items()}
         try:
             # a one-byte chunk is passed as an int every other time (the documented "single byte" form of on_data)
             res = dec.on_data(chunk[0] if (len(chunk) == 1 and i % 2 == 1) else chunk)
         except BaseException as e:
             R.append('%d:!EXC:%s;' % (i, type(e).__name__))
             break
-        if res:
-            items, cb_ok = [], True
-            for r in res:
-                marks = ''
-                try:
-                    exp_len = 2 + (1 if rb else 0) + (1 if ro else 0)
-                    if len(r) != exp_len:
-                        marks += '!SH'
-                    h, contents = r[0], r[1]
-                    raw = bytes(r[2]) if rb else None
-                    off = r[exp_len - 1] if ro else None
-                    t = int(h.message_type)
-                    pv = digest(canon(contents if not isinstance(contents, (bytes, bytearray)) else bytes(contents)))[:8]
-                    items.append('%d,%d,%d,%d,%s,%s,%s%s' % (t, h.sequence_number, h.payload_size_bytes, h.crc,
-                                                              raw.hex() if raw is not None else '-',
-                                                              off if off is not None else '-', pv, marks))
-                except Exception as e:
-                    items.append('!SH:%s' % type(e).__name__)
-            new_all = got_all[n_all:]
-            if len(new_all) != len(res) or any(len(a) != len(r) or any(x is not y for x, y in zip(a, r)) for a, r in zip(new_all, res)):
-                cb_ok = False
-            for t, l in typed.items():
-                want = [r for r in res if r[0].message_type == t]
-                new = l[n_typed[t]:]
-                if len(new) != len(want) or any(any(x is not y for x, y in zip(a, r)) for a, r in zip(new, want)):
-                    cb_ok = False
-            R.append('%d:%s%s;' % (i, '+'.join(items), '' if cb_ok else '!CB'))
-        elif len(got_all) != n_all:
-            R.append('%d:!CB;' % i)
+        marks_call = ''
+        # callbacks against the return value of this call
+        inv_before, ninv_seen = ninv_seen_box[0], ninv[0]
+        ninv_seen_box[0] = ninv_seen
+        for rec in (cbs if (res or ninv_seen != inv_before) else ()):
+            t, got, done = rec
+            want = [r for r in res if t is None or r[0].message_type == t]
+            new = got[done:]
+            rec[2] = len(got)
+            if len(new) != len(want) or any(len(a_) != len(r) or any(x is not y for x, y in zip(a_, r)) for a_, r in zip(new, want)):
+                marks_call = '!CB'
+        # earlier entries must still say what they said when they were returned (cheap part after every call, payload
+        # field values after every call that returned something and at the end)
+        full = bool(res) or i == len(sizes) - 1
+        for ent in kept:
+            r0, c0 = ent[0], ent[1]
+            h0 = r0[0]
+            same = (int(h0.message_type) == c0[0] and h0.sequence_number == c0[1] and h0.payload_size_bytes == c0[2] and h0.crc == c0[3]
+                    and h0.message_version == c0[4] and h0.source_identifier == c0[5] and (not rb or r0[2] == c0[6]) and (not ro or r0[-1] == c0[7]))
+            if same and full:
+                same = snapshot(r0, rb, ro, True)[1] == ent[2]
+            if not same:
+                marks_call += '!AL'
+                break
+        items = []
+        for r in res:
+            marks = ''
+            try:
+                exp_len = 2 + (1 if rb else 0) + (1 if ro else 0)
+                if len(r) != exp_len:
+                    marks += '!SH'
+                cheap, pv = snapshot(r, rb, ro, True)
+                # no mutable object may be shared with an earlier entry or be (a view of) the decoder's own buffer
+                ids = {}
+                mutable_ids(r[0], ids); mutable_ids(r[1], ids)
+                if rb:
+                    mutable_ids(r[2], ids)
+                buf_now = getattr(dec, '_buffer', None)
+                if any(k_ in seen_ids for k_ in ids) or (buf_now is not None and id(buf_now) in ids):
+                    marks += '!ID'
+                seen_ids.update(ids)
+                kept.append([r, cheap, pv, i])
+                items.append('%d,%d,%d,%d,%s,%s,%s%s' % (cheap[0], cheap[1], cheap[2], cheap[3],
+                                                          cheap[6].hex() if cheap[6] is not None else '-',
+                                                          cheap[7] if cheap[7] is not None else '-', pv, marks))
+            except Exception as e:
+                items.append('!SH:%s' % type(e).__name__)
+        if items or marks_call:
+            R.append('%d:%s%s;' % (i, '+'.join(items), marks_call))
         hd = attr(dec, '_header')
         buf = attr(dec, '_buffer')
         ls = attr(dec, '_last_sequence_number')
         A.append('%s,%s,%s,%s,%s;' % (attr(dec, '_bytes_processed'), len(buf) if buf != '?' else '?',
                                       '?' if hd == '?' else (1 if hd is None else 0), attr(dec, '_msg_len'),
                                       '-' if ls is None else ls))
+        if i in late_points and i < len(sizes) - 1:
+            register(None)
+            for t in cand_types[:8]:
+                register(t)
     return ''.join(R), ''.join(A)
 
 
@@ -252,11 +345,26 @@ def classes_main():
     enc = FusionEngineEncoder()
     out, notes = [], []
     for t, cls in sorted(message_type_to_class.items(), key=lambda kv: int(kv[0])):
-        rec = {'name': cls.__name__, 'type': int(t), 'version': None, 'default': None}
+        rec = {'name': cls.__name__, 'type': int(t), 'version': None, 'default': None, 'variants': []}
         try:
             obj = cls()
             rec['version'] = int(obj.get_version())
-            rec['default'] = enc.encode_message(obj).hex()
+            msg = enc.encode_message(obj)
+            rec['default'] = msg.hex()
+            # payloads of the same length that still parse but decode to different field values
+            import random
+            r = random.Random(int(t))
+            base_ok, base_dg = standalone(obj.get_type(), bytes(msg))
+            seen = {base_dg}
+            for _ in range(60):
+                if len(rec['variants']) >= 4 or len(msg) <= 24:
+                    break
+                pl = bytearray(msg[24:])
+                for _k in range(r.randint(1, 4)):
+                    pl[r.randrange(len(pl))] = r.randrange(256)
+                ok, dg = standalone(obj.get_type(), bytes(msg[:24]) + bytes(pl))
+                if ok and dg not in seen:
+                    seen.add(dg); rec['variants'].append(bytes(pl).hex())
         except Exception as e:
             notes.append('%s: default object does not serialise (%s)' % (cls.__name__, type(e).__name__))
         out.append(rec)
